@@ -50,6 +50,33 @@ Proof.
       destruct (Nat.eqb (length rs) 1) eqn:Hl; [|discriminate]. now apply Nat.eqb_eq in Hl.
 Qed.
 
+Theorem judge_tu_cert_sound : forall rec cfg m n M rc v sub rest,
+  tu_input rec = Some ((cfg, (m, n, M), rc, v, sub), rest) ->
+  judge_tu_cert rec = 0 ->
+  rc = 0 /\
+  (v = 0 \/ v = 1 \/ (v = 2 /\ cfg_stopflags cfg = true)) /\
+  (v = 1 -> sub = None) /\
+  (v = 0 -> cfg_want_sub cfg = true ->
+     exists rs cs, sub = Some (rs, cs) /\ check_violator m n M rs cs = true).
+Proof.
+  intros rec cfg m n M rc v sub rest Hdec Hj.
+  unfold judge_tu_cert in Hj. unfold tu_input in Hdec. rewrite Hdec in Hj.
+  destruct (rc =? 0) eqn:Hrc; cbn [negb] in Hj; [|discriminate].
+  apply Z.eqb_eq in Hrc. split; [exact Hrc|].
+  destruct (v =? 2) eqn:Hv2.
+  { apply Z.eqb_eq in Hv2. destruct (cfg_stopflags cfg) eqn:Hs; [|discriminate].
+    split; [right; right; auto|]. split; [intros Hv; lia | intros Hv; lia]. }
+  destruct ((v =? 0) || (v =? 1)) eqn:Hv01; cbn [negb] in Hj; [|discriminate].
+  apply orb_true_iff in Hv01.
+  split. { destruct Hv01 as [H|H]; apply Z.eqb_eq in H; auto. }
+  split.
+  - intros Hv1. subst v. cbn in Hj. destruct sub; [discriminate|reflexivity].
+  - intros Hv0 Hw. subst v. cbn in Hj. rewrite Hw in Hj. cbn [negb] in Hj.
+    destruct sub as [[rs cs]|]; [|discriminate].
+    exists rs, cs. split; [reflexivity|].
+    destruct (check_violator m n M rs cs); [reflexivity|discriminate].
+Qed.
+
 Definition regular_input := cfg <- dlist dZ ;; x <- dmat ;; rc <- dZ ;; v <- dZ ;; dend (cfg, x, rc, v).
 
 Theorem judge_regular_sound : forall rec cfg m n M rc v rest,
